@@ -795,6 +795,50 @@ func placeholderCases(c *ctx) {
 	}
 }
 
+// agedRecordCase: a cluster (listener) was delivered once, then removed by a complete update - its access record stays
+// behind until the next sweep -, and nobody asked for it for more than the expiry period. Now it is looked up again and
+// the control plane lists it again: the waiting lookup returns it (an old access record says nothing about a resource
+// that has just been delivered).
+func agedRecordCase(c *ctx) {
+	for _, rt := range []string{"cds", "lds"} {
+		w, err := newWorld(worldOpts{ndsNotRequired: true, fetchTimeout: 2 * time.Second})
+		if err != nil {
+			fmt.Println("aged: world:", err)
+			return
+		}
+		T := rtOf(rt)
+		w.m.VerifWatch(T, "back-again", false)
+		w.m.VerifWatch(T, "other", false)
+		w.settle()
+		w.push(mkResp(urlOf(rt), "v1", "n1", []*anypb.Any{anyStamped(rt, "back-again", "back-again#1"), anyStamped(rt, "other", "other#1")}))
+		_ = w.get(T, "back-again")
+		w.push(mkResp(urlOf(rt), "v2", "n2", []*anypb.Any{anyStamped(rt, "other", "other#2")})) // removed by the control plane
+		aged := w.m.VerifBackdate(T, "back-again", 31*time.Second)
+		ch := make(chan string, 1)
+		go func() { ch <- w.get(T, "back-again") }()
+		w.waitFor(func() bool {
+			for _, n := range w.m.VerifPending()[T] {
+				if n == "back-again" {
+					return true
+				}
+			}
+			return false
+		}, 2*time.Second)
+		w.feed(mkResp(urlOf(rt), "v3", "n3", []*anypb.Any{anyStamped(rt, "back-again", "back-again#3"), anyStamped(rt, "other", "other#3")}))
+		res := "hang"
+		select {
+		case res = <-ch:
+		case <-time.After(6 * time.Second):
+			w.hung = true
+		}
+		c.count("aged-record-cases", 1)
+		c.emit(obj{"op": "aged-record", "rt": rt, "obs": obj{"aged": aged, "result": res}})
+		if !w.hung {
+			w.close()
+		}
+	}
+}
+
 func deadlineCases(c *ctx) {
 	for _, tc := range []struct {
 		fetchMs, callerMs int
@@ -933,6 +977,7 @@ func init() {
 		deadlineCases(c)
 		kindCases(c)
 		placeholderCases(c)
+		agedRecordCase(c)
 		// lookups (cached and uncached names) placed around and between the lock sections of a response handler: each
 		// returns in time whatever the receiver is doing
 		runSysLookups(c)
@@ -949,6 +994,7 @@ func init() {
 		flowCaseHold(c, "burst", 100, 500*time.Millisecond)
 	}
 	props["C06"] = func(c *ctx) {
+		agedRecordCase(c)
 		// an update that runs a (slow) registered handler while lookups of the name it delivers arrive and wait: they return it
 		for _, rt := range []string{"cds", "eds", "rds", "lds"} {
 			handlerOrder(c, rt, "h-"+rt)
